@@ -8,6 +8,7 @@ import (
 	"flag"
 	"fmt"
 	"sort"
+	"time"
 
 	"github.com/orbs-network/lean-helix-go/services/interfaces"
 	"github.com/orbs-network/lean-helix-go/services/storage"
@@ -18,10 +19,10 @@ import (
 func init() { register("storage", cmdStorage) }
 
 type stOp struct {
-	op      string // store | clear
-	k       string // PP P C VC
-	h, v    int
-	x, s    string
+	op   string // store | clear
+	k    string // PP P C VC
+	h, v int
+	x, s string
 }
 
 type stRun struct {
@@ -176,6 +177,9 @@ func cmdStorage(args []string) int {
 	fs.Parse(args)
 	rnd := newRand(*seed)
 	out := newNdjson(*outPath)
+	out.watchdog(30*time.Second, func() obj {
+		return obj{"op": "hang", "k": "-", "h": 0, "v": 0, "x": "-", "s": "-", "res": false, "panic": false, "obs": obj{}}
+	})
 	defer out.close()
 	if *replay != "" {
 		run := newStRun()
